@@ -297,7 +297,7 @@ func genC11(t *rapid.T) c11Case {
 			}
 			e := eol
 			if e == "mixed" {
-				e = pick(t, "mixed-eol", []string{"\n", "\r\n", "\n\n", "\r\r\n"})
+				e = pick(t, "mixed-eol", []string{"\n", "\r\n", "\n\n", "\r\r\n", "\r", "\r \n"}) // a lone CR does not end a line
 			}
 			buf.WriteString(e)
 		}
